@@ -9,6 +9,10 @@ def c04(tier):
         runs.append(H("c04_termination", "plain", 100, "12,12,8", cpus=4, timeout_per_case=60, params=dict(oversub=1)))
         runs.append(H("c04_termination", "asan", 200, "4,4,4,4", timeout_per_case=40))
         runs.append(H("c04_termination", "asan", 100, None, timeout_per_case=40))
+        # the executor's own re-arm path (termination announced, worklist not yet empty: initializeThread +
+        # barrier inside ForEachExecutor::go) only runs with a worklist that has empty(): OBIM with barrier
+        runs.append(H("c01_foreach", "plain", 150, "4,4,4,4", timeout_per_case=20,
+                      params=dict(focus="c08", wl="OBIM_barrier", maxitems=600)))
     else:
         for t in TOPOS_THOROUGH:
             runs.append(H("c04_termination", "plain", 3000, t, timeout_per_case=20))
@@ -17,6 +21,9 @@ def c04(tier):
             runs.append(H("c04_termination", "plain", 400, "12,12,8", cpus=cpus, timeout_per_case=90, params=dict(oversub=1)))
         runs.append(H("c04_termination", "tsan", 300, "4,4,4,4", timeout_per_case=120, params=dict(det=0)))
         runs.append(H("c04_termination", "tsan", 150, None, timeout_per_case=120, params=dict(det=1)))
+        for t in (None, "4,4,4,4", "3,5"):
+            runs.append(H("c01_foreach", "plain", 800, t, timeout_per_case=20,
+                          params=dict(focus="c08", wl="OBIM_barrier", maxitems=1500)))
     return runs
 
 
@@ -32,7 +39,9 @@ SPEC = dict(
                "a thread observes termination the ledger of existing units must be zero and every mailbox empty, and all units must "
                "have been processed. Liveness: in lock-step games (one report per thread per harness-barrier round) termination must "
                "reach every thread within 4n+8+8*ceil(log2(n+1)) rounds after the last unit disappeared; free-running games rely on "
-               "the logical hang monitor. Held on the executions observed.",
+               "the logical hang monitor. The executor's own re-arm path (termination announced while the worklist is not yet "
+               "empty) is exercised by real for_each loops on OBIM-with-barrier worklists with several levels, under the C01 "
+               "conservation/hang oracles. Held on the executions observed.",
     level_note="Trusts the ledger (seq_cst counter incremented before a unit is visible, decremented after its sends), the harness "
                "barrier of lock-step mode, Galois asserts in the asan build as extra monitors. The number of reports per token hop in "
                "free-running mode depends on cache latency and is deliberately not bounded.",
